@@ -66,8 +66,10 @@ def oracle(ctx, seeds=None):
             if not ok:
                 res.fail('solve/%s:raised' % name, out, dict(cfg=cfg, shift=k, integrator=name)); continue
             a, b_ = out
-            if a.isnan():
-                continue
+            if a.isnan() or b_.isnan():
+                # a trajectory on its way out of the admissible set (centered flux, rough data): whether a NaN appears at this or
+                # the next iteration is decided by round-off, which the shift permutes
+                res.count('skipped-nan'); continue
             for q in range(mod.neq):
                 sc = float(np.max(np.abs(a.data[q]))) + 1e-300
                 tol = 1e-11 if name not in ('implicit', 'cranknicolson', 'gear') else 1e-7
